@@ -51,7 +51,7 @@ TRUSTED = [
     "moov and mvex are plain containers (no fields of their own); all other boxes are opaque leaves of the model",
 ]
 ASSUMPTIONS = [
-    "box sizes fit 32 bits (no largesize boxes in init segments)",
+    "the model covers boxes with 32-bit sizes; stored init segments holding a 64-bit largesize box (lay_large*) are judged by the oracle only",
     "an encrypted track requested without any DRM on the /dash route is refused (404) before an init segment is produced; such requests are counted, not judged",
     "the order of the appended pssh boxes is not part of the property (the oracle compares them per system); the model predicts the code's order (ClearKey, PlayReady)",
     "every key id of the track is present in the key table",
@@ -106,6 +106,12 @@ def stored_init(m: dict) -> bytes:
     return _STORED[key]
 
 
+def has_largesize(data: bytes) -> bool:
+    def any_large(boxes):
+        return any(b.header_size != 8 or any_large(b.children) for b in boxes)
+    return any_large(mp4walk.walk(data))
+
+
 def tree_tokens(data: bytes) -> str:
     """top-level boxes of `data` (independent walker) as the driver's preorder tokens; moov and
     mvex are containers, everything else an opaque leaf"""
@@ -152,6 +158,12 @@ def params_of(c) -> dict:
     return p
 
 
+def v10(version) -> str:
+    if not version or version == "none":
+        return "-"
+    return str(int(round(float(version) * 10)))
+
+
 def fetch(env, c):
     media = {m["name"]: m for m in env.media()}
     m = media[c["name"]]
@@ -178,15 +190,19 @@ def code_inputs(env, m: dict) -> tuple[list[bytes], bytes]:
         rep = mf.representation
         keys = mods.Key.get_kids(rep.kids)
         kids = [bytes.fromhex(k) for k in keys.keys()]
-        pro = PlayReady().generate_pro(mf.stream.playready_la_url, rep.default_kid, keys, None) if keys else b""
+        # licence URL in force without a request parameter: stream default option, else the stored URL
+        la = lib.default_license_url(env, m["stream"]) or mf.stream.playready_la_url
+        pro = PlayReady().generate_pro(la, rep.default_kid, keys, None) if keys else b""
     _STORED[key] = (kids, bytes(pro))
     return _STORED[key]
 
 
 def model_line(env, c, m) -> str:
+    if has_largesize(stored_init(m)):
+        return "parseboxes - -"        # 64-bit largesize boxes are outside the model (32-bit sizes): oracle only
     kids, pro = code_inputs(env, m)
-    v = "-" if not c.get("version") else str(int(float(c["version"]) * 10))
-    sel = (c.get("drm") or "").encode().hex() or "-"
+    v = v10(c.get("version"))
+    sel = lib.effective_drm(env, c).encode().hex() or "-"
     return (f"initrewrite {tree_tokens(stored_init(m))} {1 if m['encrypted'] else 0} {v} 1 {sel} "
             f"{lib.hexlist(kids)} {lib.hx(pro)} {1 if c['mode'] == 'live' else 0}")
 
@@ -247,7 +263,7 @@ def oracle_init(env, c, m=None, resp=None) -> list[dict]:
         elif box_bytes(S, s) != box_bytes(R, r):
             fails.append({"what": f"top-level {s.type} is not byte-identical"})
     # the appended boxes: exactly one pssh per requested system with init data and moov among its locations
-    rex = lib.requested_ex(c.get("drm") or "")
+    rex = lib.requested_ex(lib.effective_drm(env, c))
     req = None if rex is None else rex[0]
     if any(a.type != "pssh" for a in appended):
         fails.append({"what": f"boxes {[a.type for a in appended]} appended to moov"})
@@ -264,7 +280,7 @@ def oracle_init(env, c, m=None, resp=None) -> list[dict]:
         got_sys = [p.system_id for p in got]
         if len(set(got_sys)) != len(got_sys) or not (must <= set(got_sys) <= must | may):
             fails.append({"what": f"pssh boxes for systems {[s.hex() for s in got_sys]} appended, requested selection "
-                                  f"{c.get('drm')!r} on a{'n encrypted' if m['encrypted'] else ' clear'} track calls for "
+                                  f"{lib.effective_drm(env, c)!r} on a{'n encrypted' if m['encrypted'] else ' clear'} track calls for "
                                   f"{sorted(s.hex() for s in must)}"
                                   + (f" (optionally {sorted(s.hex() for s in may)})" if may else "")})
         store = env.stored_keys()
@@ -371,6 +387,11 @@ REGRESSION = [
     {"kind": "init", "route": "dash", "stream": "bbb", "name": "bbb_v6_enc", "mode": "vod", "drm": "playready-cenc,clearkey", "version": None},
     {"kind": "init", "route": "dash", "stream": "mk", "name": "mk_a1_enc", "mode": "vod", "drm": "playready", "version": None},
     {"kind": "init", "route": "dash", "stream": "m3", "name": "m3_v6_enc", "mode": "live", "drm": "all", "version": None},
+    # selection taken from the stored stream defaults (no drm parameter), overridden, switched off
+    {"kind": "init", "route": "dash", "stream": "sd", "name": "sd_v6_enc", "mode": "vod", "drm": None, "version": None},
+    {"kind": "init", "route": "dash", "stream": "sd", "name": "sd_a1_enc", "mode": "live", "drm": None, "version": None},
+    {"kind": "init", "route": "dash", "stream": "sd", "name": "sd_v6_enc", "mode": "live", "drm": "clearkey", "version": None},
+    {"kind": "init", "route": "dash", "stream": "sd", "name": "sd_v6_enc", "mode": "vod", "drm": "marlin", "version": None},
     {"kind": "init", "route": "mps", "stream": "bbb", "name": "bbb_a1_enc", "mode": "live", "drm": "marlin-cenc,playready,clearkey", "version": None},
 ]
 
@@ -402,13 +423,15 @@ def evaluate(env, cases, ch: Channel):
     out = drive(lines, ch)
     for (c, m, r), mo in zip(fetched, out):
         ch.evaluations += 1
-        rex = lib.requested_ex(c.get("drm") or "")
+        rex = lib.requested_ex(lib.effective_drm(env, c))
         req = None if rex is None else rex[0]
         nsys = "?" if req is None else len(req)
         form = drm_form(c.get("drm"))
         ch.count(f"{c['route']} {c['mode']} {'enc' if m['encrypted'] else 'clear'} systems={nsys} -> {r.status_code}")
         ch.count(f"drm form: {form}")
-        if mo == "err":
+        if has_largesize(stored_init(m)):
+            ch.count(f"stored init segment with a 64-bit largesize box -> {r.status_code} (outside the model, oracle only)")
+        elif mo == "err":
             ch.count(f"selection outside the modelled parser domain -> {r.status_code} (oracle only)")
         elif r.status_code == 200:
             if m["encrypted"] and req and any("moov" in v for k, v in req.items() if k != "marlin"):
@@ -444,7 +467,7 @@ def history_probes(env) -> list[dict]:
     """init-segment requests re-issued after every step of a sequence"""
     out = []
     for name, stream in (("bbb_v6_enc", "bbb"), ("bbb_a1_enc", "bbb"), ("mk_v6_enc", "mk"), ("va_a1_enc", "va"),
-                         ("m3_a1_enc", "m3"), ("lay_trexmehd_enc", "lay")):
+                         ("m3_a1_enc", "m3"), ("lay_trexmehd_enc", "lay"), ("sd_v6_enc", "sd")):
         for drm in ("playready", "clearkey", "all", "clearkey,playready", "playready-moov", "all-moov", "marlin"):
             for route, mode in (("dash", "vod"), ("dash", "live"), ("mps", "live")):
                 if route == "mps" and stream not in {d for _, d in env.mps_periods}:
@@ -497,7 +520,8 @@ def history_steps(env, rng, n_random: int) -> list[dict]:
 def do_step(env, step):
     import appboot
     client = env.app.client()
-    with appboot.Clock("2024-05-01T12:00:00Z"):
+    clocks = ["2024-05-01T12:00:00Z", "2024-12-31T23:59:59.999999Z", "2036-02-07T06:28:16Z", "1970-01-02T00:00:00Z"]
+    with appboot.Clock(clocks[len(step["url"]) % len(clocks)]):
         if step["op"] == "POST":
             return client.post(step["url"], json=step.get("json"))
         return client.get(step["url"], headers=step.get("headers") or {})
@@ -665,11 +689,22 @@ def channels(ctx):
     if ctx.thorough:
         cases = list(all_cases(env, versions))
     else:
-        base = list(cases_for(env, base_selections()))
-        rng.shuffle(base)
-        cases = base[:ctx.scale(600, 0)]
+        # stratified: every track x mode x route gets its own draw of selections, so adding a stream
+        # does not dilute the others
+        cases = []
+        sels = base_selections()
+        mps_streams = {d for _, d in env.mps_periods}
+        for m in [x for x in env.media() if x["stream"] != "mx"]:
+            k = 1 if m["stream"] == "lay" else 3
+            for mode in ("vod", "live"):
+                for route in ("dash", "mps"):
+                    if route == "mps" and m["stream"] not in mps_streams:
+                        continue
+                    for drm in rng.sample(sels, k):
+                        cases.append({"kind": "init", "route": route, "stream": m["stream"], "name": m["name"],
+                                      "mode": mode, "drm": drm, "version": None})
         for c in cases[::6]:
-            c["version"] = rng.choice(versions)
+            c["version"] = rng.choice(versions + ("3", "2.00", "none"))
     cases = [dict(c) for c in REGRESSION] + list(layout_cases(env)) + cases + mixed_cases(env, rng, ctx.scale(120, 3000))
     evaluate(env, cases, ch)
     yield ch
@@ -716,6 +751,9 @@ def channels(ctx):
         m, r = fetch(env, c)
         if r.status_code == 200:
             blobs.append(r.data)
+    n_large = len([b for b in blobs if has_largesize(b)])
+    blobs = [b for b in blobs if not has_largesize(b)]         # the model's reader is for 32-bit box sizes
+    ch2.count("blobs with a 64-bit largesize box (outside the model)", n_large)
     lines = [f"parseboxes {','.join(t.encode().hex() for t in CONTAINERS)} {lib.hx(b)}" for b in blobs]
     out = drive(lines, ch2)
     for b, mo in zip(blobs, out):
